@@ -236,7 +236,7 @@ func (d *driver) do(a actT) obsT {
 			c.tk = spawn(func() {
 				<-gate
 				if c.multi {
-					l.LockN(c.keys, c.write)
+					l.LockN(c.id, c.keys, c.write)
 				} else {
 					l.Lock1(c.keys[0], c.write)
 				}
@@ -250,7 +250,7 @@ func (d *driver) do(a actT) obsT {
 		l := d.l
 		c.tk = spawn(func() {
 			if c.multi {
-				l.LockN(c.keys, c.write)
+				l.LockN(c.id, c.keys, c.write)
 			} else {
 				l.Lock1(c.keys[0], c.write)
 			}
@@ -262,7 +262,7 @@ func (d *driver) do(a actT) obsT {
 		l := d.l
 		tk := spawn(func() {
 			if c.multi {
-				l.UnlockN(c.keys, c.write)
+				l.UnlockN(c.id, c.keys, c.write)
 			} else {
 				l.Unlock1(c.keys[0], c.write)
 			}
